@@ -119,6 +119,35 @@ def evaluate(task):
     return {"fails": fails + f2, "stats": stats}
 
 
+SEQUENCES = {"quick": [("fulldiv", (8, 40, 8)), ("fulldiv", (40, 8, 40)), ("cube4D", (9, 30, 9, 17)), ("ico", (12, 50, 12, 3)),
+                       ("cube3D", (8, 40, 8, 27)), ("randomQ", (10, 25, 10)), ("randomS", (10, 30, 10))],
+             "thorough": [("fulldiv", (8, 40, 8)), ("fulldiv", (40, 8, 40)), ("fulldiv", (272, 8, 40, 8)), ("cube4D", (9, 30, 9, 17)),
+                          ("cube4D", (41, 5, 80, 41, 5)), ("ico", (12, 50, 12, 3)), ("ico", (163, 12, 42, 163)), ("cube3D", (8, 40, 8, 27)),
+                          ("cube3D", (99, 8, 60, 99)), ("randomQ", (10, 25, 10)), ("randomS", (10, 30, 10))]}
+
+
+def evaluate_sequence(task):
+    """several requests for the same algorithm in ONE process, sizes going up and down: every grid must satisfy the clauses and a
+    repeated size must give bit-identical arrays (state shared between requests -- cached polytopes, divided in place -- shows here)"""
+    alg, Ns = task
+    fails, first = [], {}
+    for i, N in enumerate(Ns):
+        try:
+            arrs = grid_arrays(create(alg, N, voronoi=False), alg)
+        except Exception as e:
+            fails.append(("construction", f"request #{i + 1} (N={N}) after sizes {list(Ns[:i])} in the same process: {type(e).__name__}: {str(e)[:120]}"))
+            break
+        f2, _ = check_arrays(alg, N, arrs)
+        fails += [(c, f"request #{i + 1} (N={N}) after sizes {list(Ns[:i])} in the same process: {m}") for c, m in f2]
+        if N in first:
+            for key in arrs:
+                if not (arrs[key].shape == first[N][key].shape and np.array_equal(arrs[key], first[N][key])):
+                    fails.append(("construction", f"request #{i + 1} (N={N}) after sizes {list(Ns[:i])}: array '{key}' differs from the first request of the same size"))
+        else:
+            first[N] = arrs
+    return {"fails": fails}
+
+
 # ------------------------------------------------------------------------------------------------ N = 1 by name
 NAME_CASES = [("1", "o"), ("1", "b"), ("ico_1", "o"), ("cube3D_1", "o"), ("randomS_1", "o"), ("cube4D_1", "b"),
               ("randomQ_1", "b"), ("zero", "o"), ("zero", "b"), ("zero_1", "o"), ("zero_1", "b"), ("zero3D_1", "o"),
@@ -227,7 +256,8 @@ def run(tier, seed):
     tasks, desc = plan(tier)
     res = Result("C07", rule="per algorithm the listed set of N, one fresh grid object per (algorithm, N); every clause "
                  "of the statement evaluated on get_grid_as_array(only_upper=True/False); non-trivial = N >= 2 "
-                 "(pairwise clauses not vacuous); distinct by (algorithm, N)",
+                 "(pairwise clauses not vacuous); distinct by (algorithm, N); plus per algorithm a sequence of requests in one process "
+                 "with sizes going up and down (every grid checked, a repeated size must be bit-identical)",
                  bound="; ".join(f"{a}: {d}" for a, d in desc.items()),
                  oracle="direct O(N^2) evaluation of the statement on the returned arrays (blockwise exact pair "
                         "distances, with |q_i+q_j| for rotations), an independent first-non-zero-coordinate predicate "
@@ -270,6 +300,14 @@ def run(tier, seed):
             counts["paths-identical"] += 1
         for clause, msg in r["fails"]:
             res.fail(f"C07-{clause} alg={alg} N={N}: {msg}", dict(case, clause=clause), clause=clause)
+    seqs = SEQUENCES["quick" if tier == "quick" else "thorough"]
+    for (alg, Ns), r in pool_map(evaluate_sequence, seqs):
+        res.case(("sequence", alg, Ns), nontrivial=True, sample=None)
+        if "crash" in r:
+            res.fail(f"C07-crash alg={alg} sequence={list(Ns)}: {r['crash']}", {"alg": alg, "sequence": list(Ns)}, clause="construction", detail=r.get("trace"))
+            continue
+        for clause, msg in r["fails"]:
+            res.fail(f"C07-{clause} alg={alg} sequence={list(Ns)}: {msg}", {"alg": alg, "sequence": list(Ns), "clause": clause}, clause=clause)
     for a in ALG3[:3] + ALG4[:3]:
         if a in agg:
             res.samples.append({"alg": a, **agg[a]})
@@ -314,6 +352,10 @@ def replay(case):
         except Exception as e:
             return f"raised {type(e).__name__} instead of ValueError"
         return "fulldiv accepted an N that is not a complete subdivision level"
+    if "sequence" in case:
+        r = evaluate_sequence((case["alg"], tuple(int(x) for x in case["sequence"])))
+        msgs = [f"{c}: {m}" for c, m in r["fails"]]
+        return "; ".join(msgs[:5]) if msgs else None
     r = evaluate((case["alg"], int(case["N"]), case.get("path", "factory")))
     want = case.get("clause")
     msgs = [f"{c}: {m}" for c, m in r["fails"] if want is None or c == want]
